@@ -184,6 +184,11 @@ package parse
 
 //@ func parse.lexCloseParens
 //@   implements functype:parse.stateFn
+// C03/C14: a closing bracket is a token whether or not a bracket is open (balance is the parser's business; a verbatim
+// body is tokenised like any other text and may hold any brackets): the only lexer error here is a character that is
+// no closing bracket at all
+//@   never "l.errorf(" onlyinvalid
+//@   at? "l.errorf(\"invalid parenthesis\")" invalid: str != ")" && str != "]" && str != "}"
 
 //@ func parse.lexCommentOpen
 //@   implements functype:parse.stateFn
@@ -726,6 +731,8 @@ package parse
 //@   ensures ok: err == nil ==> r0 != nil && tcur(t) > old(tcur(t))
 
 //@ func parse.parseBlock
+// C12/C09: a block records the name of the template whose source defines it - at any nesting, also in an embed body
+//@   asserts origin: err == nil && istype(r0, "*BlockNode") ==> unbox(r0, "*BlockNode").Origin == t.Name
 // C14: inside delimiters a raw next() / peek() (one that does not skip blanks) never meets a blank - except where a
 // number literal looks for its fraction point (tokens that can merge)
 //@   at? "t.next()" nows: !isWS(tokAt(t, tcur(t)))
@@ -787,6 +794,8 @@ package parse
 //@   ensures ok: err == nil ==> r0 != nil && tcur(t) > old(tcur(t))
 
 //@ func parse.parseInclude
+// C10: the include node carries the tag's operands: template, with-expression, only flag
+//@   asserts node: err == nil ==> istype(r0, "*IncludeNode") && unbox(r0, "*IncludeNode").Tpl == expr && unbox(r0, "*IncludeNode").With == with && unbox(r0, "*IncludeNode").Only == only
 // C14: inside delimiters a raw next() / peek() (one that does not skip blanks) never meets a blank - except where a
 // number literal looks for its fraction point (tokens that can merge)
 //@   at? "t.next()" nows: !isWS(tokAt(t, tcur(t)))
@@ -813,6 +822,8 @@ package parse
 // C10: the blocks written in an embed body are collected in a table of their own (pushed for the embed, popped into
 // the embed node): they never land in the block table of the template that contains the embed
 //@   at "parseBlock(t, tok.Pos)" own: len(t.blocks) == old(len(t.blocks)) + 1 && called("t.pushBlockStack()")
+// C10: the embed node carries the tag's operands: template, with-expression, only flag, the overridden blocks
+//@   asserts node: err == nil ==> istype(r0, "*EmbedNode") && unbox(r0, "*EmbedNode").IncludeNode != nil && unbox(r0, "*EmbedNode").IncludeNode.Tpl == expr && unbox(r0, "*EmbedNode").IncludeNode.With == with && unbox(r0, "*EmbedNode").IncludeNode.Only == only && unbox(r0, "*EmbedNode").Blocks == blockRefs
 //@   at "NewEmbedNode(expr, with, only, blockRefs, start)" own: called("t.popBlockStack()") && len(t.blocks) == old(len(t.blocks))
 //@   after "t.popBlockStack()" own: true
 //@   reveal blocksOK
@@ -897,6 +908,11 @@ package parse
 //@   loop 1 decreases left(t)
 
 //@ func parse.parseMacro
+// C11: every NAME token between the parentheses becomes a parameter, in the order written (a repeated name stays a
+// parameter of its own: positions decide which argument it receives)
+//@   at "append(args, tok.value)" every: tok.tokenType == tokenName
+//@   never "contains(" nodedup
+//@   at "NewMacroNode(name, args, body, start)" params: true
 // C14: inside delimiters a raw next() / peek() (one that does not skip blanks) never meets a blank - except where a
 // number literal looks for its fraction point (tokens that can merge)
 //@   at? "t.next()" nows: !isWS(tokAt(t, tcur(t)))
